@@ -142,7 +142,21 @@ def build_milp(U):
     return m, {"x": x}
 
 
-TEMPLATES = {"ro": build_ro, "dro": build_dro, "milp": build_milp}
+def build_fixed(U):
+    """variables pinned by a pair of equal bounds (at a non-zero value and at zero), zero and one-sided bounds: the branches of the dual
+    formulation that read -- and must not write -- the cached primal's bound arrays"""
+    from rsome import ro
+    m = ro.Model()
+    x = m.dvar(3)
+    t = m.dvar()
+    z = m.rvar()
+    m.min(U["c"] @ x + t)
+    m.st(U["A"] @ x <= U["b"], x[0] >= 2, x[0] <= 2, x[1] >= 0, x[1:] <= U["ub"][1:], x[2] >= U["lb"][2], t >= 0, t <= 0)
+    m.st((x[1] * z + x[2] + t >= -9).forall(abs(z) <= 1), t + x.sum() >= -5)
+    return m, {"x": x}
+
+
+TEMPLATES = {"ro": build_ro, "dro": build_dro, "milp": build_milp, "fixed-by-equal-bounds": build_fixed}
 
 
 def _bytes(U):
